@@ -364,5 +364,3 @@ func concurrent(t *testing.T, r *ev.Run, ks *keyring) {
 	}
 	r.Extra("distinct_interleavings_observed", r.DistinctN("interleavings"))
 }
-
-var _ = ev.JSON
